@@ -46,7 +46,10 @@ Total(s) == SumRange(s, 1, Len(s))
 (* too become the mean of the centred window, in which every sample      *)
 (* that falls outside the array is replaced by the nearest edge value.   *)
 OddWidth(w) == IF w % 2 = 0 THEN w + 1 ELSE w
-SmoothDefined(n, w) == n >= 1 /\ w >= 0 /\ OddWidth(w) <= n
+(* Domain: every REQUESTED width w <= n (made odd afterwards, so the effective width can  *)
+(* be n + 1 when w = n is even: then no point is interior; with edge truncation every     *)
+(* window is still completed with the nearest edge value, without it nothing changes).    *)
+SmoothDefined(n, w) == n >= 1 /\ w >= 0 /\ w <= n
 Clamp(i, n) == IF i < 0 THEN 0 ELSE IF i > n - 1 THEN n - 1 ELSE i
 IsInterior(i, n, h) == i >= h /\ i <= n - 1 - h
 
